@@ -458,4 +458,7 @@ def check(ctx, rep):
     rule_ordered_merge(ctx, rep)
     rule_worker_isolation(ctx, rep)
     rule_no_unordered_iter(ctx, rep)
+    from .c10 import rule_accumulate_all
+
+    rule_accumulate_all(ctx, rep)
     rep.not_covered += ["sibling-file independence of arbitrary codemods", "thread-safety of libcst / functools.cache internals"]
